@@ -18,8 +18,8 @@ func (a *hA) Clone() ProvAmmo { return &hA{n: a.n} }
 
 func HarnessC08ScenarioProvider() {
 	E := int(vConcretize(vNondetInt("E", 1, 3)))
-	limit := uint(vNondetInt("limit", 0, 3))
-	passes := uint(vNondetInt("passes", 0, 3))
+	limit := uint(vNondetInt("limit", 0, vHi(3, 8)))
+	passes := uint(vNondetInt("passes", 0, vHi(3, 8)))
 	vAssume(limit != 0 || passes != 0)
 	p := &Provider[*hA]{}
 	p.SetConfig(ProviderConfig{Limit: limit, Passes: passes})
